@@ -32,6 +32,8 @@ var dests = []*net.UDPAddr{
 	{IP: net.IPv4bcast, Port: 67},
 	{IP: net.IPv4(10, 0, 0, 1), Port: 6767},
 	{IP: net.ParseIP("ff02::1:2"), Port: 547},
+	{IP: net.ParseIP("fe80::1"), Port: 547, Zone: "eth1"}, // a scoped destination: the zone is part of where a datagram goes
+	{IP: net.ParseIP("ff02::1:2"), Port: 547, Zone: "7"},
 }
 
 func fam(name string) cli.Family {
@@ -81,6 +83,18 @@ func run(t *testing.T, sc scenario, want []byte, xid uint32) (res result) {
 			res.retAt = time.Since(start)
 			res.returned = true
 		}()
+		if sc.Accept >= 0 && sc.Off == "inwrite" {
+			// a server that answers at once: the response to transmission #k is read and routed by the receive loop
+			// before the client's WriteTo has returned
+			conn.OnWrite = func(w sconn.Write) {
+				if len(conn.Writes()) != sc.Accept+1 {
+					return
+				}
+				n := conn.Reads()
+				conn.Inject(sconn.Datagram{B: f.Datagram("matching", xid, 1, f.AcceptType()), From: dests[sc.Dest], Nonce: 1, Class: "matching"})
+				conn.WaitReads(n + 1)
+			}
+		}
 		tries := sc.N
 		if tries < 0 {
 			tries = 10 // unbounded retries: observe the first 10 transmissions, then cancel
@@ -99,7 +113,9 @@ func run(t *testing.T, sc scenario, want []byte, xid uint32) (res result) {
 			synctest.Wait()
 			time.Sleep(tryStart + off)
 			synctest.Wait() // the try's transmission (if any at this instant) has happened
-			conn.Inject(sconn.Datagram{B: f.Datagram("matching", xid, 1, f.AcceptType()), From: dests[sc.Dest], Nonce: 1, Class: "matching"})
+			if sc.Off != "inwrite" {
+				conn.Inject(sconn.Datagram{B: f.Datagram("matching", xid, 1, f.AcceptType()), From: dests[sc.Dest], Nonce: 1, Class: "matching"})
+			}
 			synctest.Wait()
 			at := time.Since(start)
 			if !res.returned {
@@ -177,7 +193,7 @@ func judge(r *mon.Rec, t *testing.T, sc scenario) {
 			bad("bytes-differ", "transmission #%d is not the request's encoding", k)
 			return
 		}
-		if ua, ok := w.Dest.(*net.UDPAddr); !ok || !ua.IP.Equal(dests[sc.Dest].IP) || ua.Port != dests[sc.Dest].Port {
+		if ua, ok := w.Dest.(*net.UDPAddr); !ok || !ua.IP.Equal(dests[sc.Dest].IP) || ua.Port != dests[sc.Dest].Port || ua.Zone != dests[sc.Dest].Zone {
 			bad("destination", "transmission #%d went to %v, want %v", k, w.Dest, dests[sc.Dest])
 			return
 		}
@@ -195,7 +211,7 @@ func judge(r *mon.Rec, t *testing.T, sc scenario) {
 	case sc.Accept >= 0:
 		tryStart := sc.T * time.Duration((int64(1)<<uint(sc.Accept))-1)
 		tryLen := sc.T * time.Duration(int64(1)<<uint(sc.Accept))
-		off := map[string]time.Duration{"start": 0, "middle": tryLen / 2, "last": tryLen - 1}[sc.Off]
+		off := map[string]time.Duration{"start": 0, "inwrite": 0, "middle": tryLen / 2, "last": tryLen - 1}[sc.Off]
 		if !res.returned || res.err != nil || !res.gotMsg || res.resp.Nonce != 1 {
 			bad("response-not-returned", "response accepted in try %d was not returned: returned=%v err=%v nonce=%d", sc.Accept, res.returned, res.err, res.resp.Nonce)
 			return
@@ -265,7 +281,7 @@ func grid(quick bool) []scenario {
 								kmax = 4
 							}
 							for k := 0; k < kmax; k++ {
-								for _, off := range []string{"start", "middle", "last"} {
+								for _, off := range []string{"start", "inwrite", "middle", "last"} {
 									out = append(out, scenario{fm, T, n, k, off, ex, d, dl, 0, len(out) % cli.NCfg})
 								}
 							}
